@@ -132,10 +132,13 @@ impl System for Sys {
     }
 }
 
-fn alpha(_cfg: &Cfg) -> Vec<Op> {
+fn alpha(cfg: &Cfg) -> Vec<Op> {
     let mut v = vec![
         t("a"),
         t("bcdefgh"),
+        // text followed by enough blanks to cross the right margin: the logical line ends in
+        // rows of nothing but spaces (what a `printf '%-81s'` leaves behind)
+        Op::text(&format!("k{}", " ".repeat(cfg.cols))),
         c(crlf()),
         c(lfs(3)),
         c(lfs(12)),
